@@ -93,6 +93,22 @@ var configs = map[string]propCfg{
 		Thorough:   tierCfg{BudgetS: 600, Chunk: 150, MaxRuns: 5000000},
 		Assume:     assumeAll, Real: []string{"pkg/storage/memkv", "pkg/storage/badger (Badger v1.6.2 on tmpfs)", "pkg/storage/tikv over the client-go mock TiKV cluster", "pkg/storage/metrics wrapper"}, Stub: []string{"goroutine scheduling: seeded token scheduler", "clock: synctest fake clock", "no node code runs in this property: clients are raw engine users"},
 	},
+	"C12": {
+		Level:      "exploration",
+		Rule:       "Seeded sequential request histories (10-35 requests: create, update/delete with correct, stale, zero, tombstone and future expectations on existing, missing, deleted and compacted keys; Get/List/limited List/Count at several revisions; compactions; watches from several start revisions) executed on memkv, Badger, TiKV-mock and Badger behind the metrics wrapper under the simulated clock and seam; transcripts normalised by revision rank and error-vs-response are compared pairwise against the memkv run. No schedule dimension: the deciding step is seeded history generation.",
+		NonTrivial: "the transcript has more than 5 lines.",
+		Quick:      tierCfg{BudgetS: 40, Chunk: 40, MaxRuns: 100000},
+		Thorough:   tierCfg{BudgetS: 600, Chunk: 40, MaxRuns: 2000000},
+		Assume:     assumeAll, Real: realAll, Stub: stubAll,
+	},
+	"C13": {
+		Level:      "exploration",
+		Rule:       "Seeded sequential histories (8-37 writes incl. failing ones) followed by unlimited List, Count, whole-range ListByStream and GetPartitions + ListByStream per advertised partition at revision 0 and historical revisions, under 1-5 partition borders drawn from {index records, version records in the middle of a key's versions, well-formed keys of existing raw keys at arbitrary revisions, keys of raw keys that do not exist, duplicates}, returned in sorted, reversed or rotated order by the seam over memkv, Badger and the (single-region) TiKV mock.",
+		NonTrivial: "the run had at least one partition border.",
+		Quick:      tierCfg{BudgetS: 40, Chunk: 120, MaxRuns: 200000},
+		Thorough:   tierCfg{BudgetS: 900, Chunk: 120, MaxRuns: 5000000},
+		Assume:     assumeAll, Real: realAll, Stub: stubAll,
+	},
 }
 
 // expectedProbes lists the reach probes whose absence is reported as a coverage gap.
@@ -106,5 +122,7 @@ var expectedProbes = map[string][]string{
 	"C08": {"read-below-accepted-floor", "older-compaction-after-newer"},
 	"C09": {"retry-rewrote", "retry-ran", "convergence-compared", "repair-write-itself-uncertain-applied", "repair-write-itself-uncertain-lost", "unknown-outcome-delete-uncertain-applied", "unknown-outcome-create-uncertain-lost"},
 	"C11": {"batch-applied", "batch-condition-failed", "backward-iteration", "iterator-read-past-concurrent-write", "compare-and-delete-applied", "compare-and-delete-refused", "batch-open-across-steps"},
+	"C12": {"guarded-update-of-absent-key", "compaction-in-history"},
+	"C13": {"several-advertised-partitions", "multi-partition-stream-read", "border-inside-a-keys-versions", "stream-with-data"},
 	"C03": {"read-at-historical-revision", "limit-cut-result", "compaction-before-reread"},
 }
